@@ -1,4 +1,4 @@
-import Sop.Model.BlockCow
+import Sop.Lemmas.BlockCowLock
 /-! # C22 — registry block writes survive a crash as either the old or the new block
 
 `old` is the block on disk before the write, `new` the image `writeBlockRegionPayload` puts there. The writer is
@@ -11,71 +11,19 @@ which "the first `L` bytes" is a special case).
 * `C22_interleaved_counterexample`: for a dead writer and THREE readers whose steps interleave it FAILS, with all
   hypotheses in force: a reader that took its block read before another reader restored the block and a third
   deleted the backup finds no backup and serves the torn bytes (the C23 fall-through is what lets it).
+* `C22_writers_old_or_new`, `C22_later_writer_completes`: any number of WRITERS on the same block, the lock and the
+  backup file as shared state, every interleaving of their lock / file operations, deaths anywhere, lock expiry: it
+  HOLDS when every writer enters at `updateFileBlockRegion` and the backup is deleted inside the critical section.
+* `C22_late_delete_counterexample`: with the backup deleted after the unlock it FAILS.
+* `C22_unlocked_check_counterexample`: with the registry's unlocked block check in front (the code as it is) it
+  FAILS: that check deletes the live backup of the writer that holds the lock.
+
+Definitions and lemmas: `Sop/Lemmas/BlockCowSeq.lean` (sequential), `Sop/Lemmas/BlockCowLock.lean` (lock invariant).
 -/
 namespace Sop.C22
 open Sop.BlockCow
 
-/-- `t` is a byte-wise mixture of `old` and `new` -/
-def Mix (old new t : Block) : Prop :=
-  t.length = old.length ∧ ∀ i : Nat, t[i]? = old[i]? ∨ t[i]? = new[i]?
-
-/-- the disk states a writer that dies can leave behind -/
-inductive Crash (old new : Block) : Disk → Prop
-  | before : Crash old new ⟨old, none⟩
-  | cowPartial (k : Nat) : Crash old new ⟨old, some (old.take k)⟩
-  | tornWrite (t : Block) : Mix old new t → Crash old new ⟨t, some old⟩
-  | after : Crash old new ⟨new, none⟩
-
-/-- checksum-detection hypothesis: a mixture that is neither image fails the checksum -/
-def Detects (P : Params) (old new : Block) : Prop :=
-  ∀ t, Mix old new t → t = old ∨ t = new ∨ valid P t = false
-
-/-! ### the crash states of the design document are instances -/
-
-theorem mix_old (old new : Block) : Mix old new old := ⟨rfl, fun _ => Or.inl rfl⟩
-
-theorem mix_new (old new : Block) (h : new.length = old.length) : Mix old new new := ⟨h, fun _ => Or.inr rfl⟩
-
-/-- the first `L` bytes of `new` over `old` is a mixture, for every `L` -/
-theorem mix_torn (old new : Block) (h : new.length = old.length) (L : Nat) : Mix old new (torn old new L) := by
-  unfold torn
-  constructor
-  · simp only [List.length_append, List.length_take, List.length_drop]; omega
-  · intro i
-    by_cases hi : i < L
-    · right
-      by_cases hn : i < new.length
-      · rw [List.getElem?_append_left (by simp only [List.length_take]; omega)]
-        simp [hi]
-      · have h1 : (List.take L new ++ List.drop L old).length ≤ i := by
-          simp only [List.length_append, List.length_take, List.length_drop]; omega
-        rw [List.getElem?_eq_none_iff.mpr h1, List.getElem?_eq_none_iff.mpr (by omega)]
-    · left
-      by_cases hL : L ≤ new.length
-      · rw [List.getElem?_append_right (by simp only [List.length_take]; omega)]
-        simp only [List.length_take, List.getElem?_drop, Nat.min_eq_left hL]
-        congr 1; omega
-      · have e1 : List.take L new = new := List.take_of_length_le (by omega)
-        have e2 : List.drop L old = [] := List.drop_of_length_le (by omega)
-        rw [e1, e2, List.append_nil, List.getElem?_eq_none_iff.mpr (by omega), List.getElem?_eq_none_iff.mpr (by omega)]
-
-theorem crash_torn (old new : Block) (h : new.length = old.length) (L : Nat) :
-    Crash old new ⟨torn old new L, some old⟩ := Crash.tornWrite _ (mix_torn old new h L)
-
-/-- a restoring write of `old` that is itself torn (a reader dies, or is observed, half way) leaves a mixture again -/
-theorem mix_restore (old new t t' : Block) (h : Mix old new t) (h' : Mix t old t') : Mix old new t' := by
-  refine ⟨h'.1.trans h.1, fun i => ?_⟩
-  rcases h'.2 i with e | e
-  · rw [e]; exact h.2 i
-  · exact Or.inl e
-
 /-! ### one reader -/
-
-theorem valid_len {P : Params} {b : Block} (h : valid P b = true) : 4 ≤ b.length := by
-  unfold valid at h
-  by_cases hl : b.length < 4
-  · simp [hl] at h
-  · omega
 
 /-- **C22 for one reader after the writer's death**: it is handed the old block or the new block. -/
 theorem C22_old_or_new (P : Params) (old new : Block)
@@ -100,56 +48,6 @@ theorem C22_old_or_new (P : Params) (old new : Block)
       simp [readAndRestore, hlt, hv, checkCow, hlo, hold, hP]
 
 /-! ### any number of readers, one after the other -/
-
-/-- results of readers that run one after the other (each with its own read-write flag) -/
-def readMany (P : Params) : List Bool → Disk → List Res
-  | [], _ => []
-  | rw :: rest, d => (readAndRestore P rw d).1 :: readMany P rest (readAndRestore P rw d).2
-
-/-- the disk is in a state from which every reader is served `b` -/
-def Serves (P : Params) (old b : Block) (d : Disk) : Prop :=
-  d.blk = b ∨ (b = old ∧ d.blk.length = P.n ∧ valid P d.blk = false ∧ d.cow = some old)
-
-theorem serves_read (P : Params) (old b : Block) (hlo : old.length = P.n) (hold : valid P old = true)
-    (hlb : b.length = P.n) (hvb : valid P b = true) (d : Disk) (h : Serves P old b d) (rw : Bool) :
-    (readAndRestore P rw d).1 = .ok b ∧ Serves P old b (readAndRestore P rw d).2 := by
-  rcases h with e | ⟨eb, hl, hv, hc⟩
-  · obtain ⟨blk, cow⟩ := d
-    simp only at e
-    subst e
-    simp [readAndRestore, hlb, hvb, Serves]
-  · obtain ⟨blk, cow⟩ := d
-    simp only at hl hv hc
-    subst hc eb
-    have h4 := valid_len hold
-    have hP : ¬ P.n = 0 := by omega
-    cases rw <;> simp [readAndRestore, hl, hv, checkCow, hlo, hold, hP, Serves]
-
-theorem crash_serves (P : Params) (old new : Block) (hlo : old.length = P.n)
-    (hdet : Detects P old new) (c : Disk) (hc : Crash old new c) :
-    ∃ b, (b = old ∨ b = new) ∧ Serves P old b c := by
-  cases hc with
-  | before => exact ⟨old, Or.inl rfl, Or.inl rfl⟩
-  | cowPartial k => exact ⟨old, Or.inl rfl, Or.inl rfl⟩
-  | after => exact ⟨new, Or.inr rfl, Or.inl rfl⟩
-  | tornWrite t hm =>
-    rcases hdet t hm with e | e | e
-    · exact ⟨old, Or.inl rfl, Or.inl e⟩
-    · exact ⟨new, Or.inr rfl, Or.inl e⟩
-    · exact ⟨old, Or.inl rfl, Or.inr ⟨rfl, hm.1.trans hlo, e, rfl⟩⟩
-
-theorem readMany_serves (P : Params) (old b : Block) (hlo : old.length = P.n) (hold : valid P old = true)
-    (hlb : b.length = P.n) (hvb : valid P b = true) (rws : List Bool) :
-    ∀ d, Serves P old b d → ∀ r ∈ readMany P rws d, r = .ok b := by
-  induction rws with
-  | nil => intro d _ r hr; simp [readMany] at hr
-  | cons rw rest ih =>
-    intro d hs r hr
-    have h1 := serves_read P old b hlo hold hlb hvb d hs rw
-    simp only [readMany, List.mem_cons] at hr
-    rcases hr with e | hr
-    · rw [e]; exact h1.1
-    · exact ih _ h1.2 r hr
 
 /-- **C22 for any number of sequential readers**: all of them — read-write or read-only, in any order — are handed
 the same block, and it is the old one or the new one. -/
@@ -247,5 +145,188 @@ example : (readAndRestore toy true ⟨torn toyOld toyNew 1, some toyOld⟩) = (.
 example : ∃ b, (b = toyOld ∨ b = toyNew) ∧
     ∀ r ∈ readMany toy [true, false, true] ⟨torn toyOld toyNew 1, some toyOld⟩, r = .ok b :=
   C22_sequential_readers toy toyOld toyNew rfl rfl (by decide) (by decide) toy_detects _ (crash_torn toyOld toyNew rfl 1) _
+
+/-! ### several writers on the same block, process deaths anywhere, lock expiry
+
+Model: `Actor.step`, `Sys.ev` in `Sop/Model/BlockCow.lean`; invariant and its preservation in
+`Sop/Lemmas/BlockCowLock.lean`. -/
+
+/-- **C22 for any number of writers that enter at `updateFileBlockRegion`, any interleaving of their lock / file
+operations, any process deaths (also inside the backup write and between the two pieces of the block write, at any
+cut), any lock expiries.** Whatever the schedule, there is a list `applied` of writers such that every later reader
+(any number, read-write or read-only) is handed the initial block with exactly the updates of `applied` applied in
+that order — or, while a writer holds the lock, possibly that plus the holder's update —, never a mixture; and
+every acknowledged update (lock released after a complete write by a live writer) is in `applied`, in
+acknowledgement order. The actors may start anywhere outside the critical section (`outside`) or be dead. -/
+theorem C22_writers_old_or_new (P : Params) (G : Block → Prop) (O : Nat → List Nat → Prop) (hg : GoodSet P G O)
+    (v0 : Block) (hv0 : G v0) (d0 : Disk) (hd0 : Stable P v0 d0) (as0 : Nat → Actor)
+    (hpc : ∀ j, outside (as0 j).pc = true ∨ (as0 j).dead = true) (hops : ∀ j, O (as0 j).off (as0 j).rcd)
+    (sched : List Ev) :
+    ∃ (applied : List Nat) (v : Block),
+      (ackLog P false ⟨⟨d0, none⟩, as0⟩ sched).Sublist applied ∧ G v ∧
+      (v = applyAll P (fun j => ((as0 j).off, (as0 j).rcd)) v0 applied ∨
+        ∃ i, (Sys.run P false ⟨⟨d0, none⟩, as0⟩ sched).sh.lock = some i ∧
+          v = newImage P (applyAll P (fun j => ((as0 j).off, (as0 j).rcd)) v0 applied) (as0 i).off (as0 i).rcd) ∧
+      ∀ rws, ∀ r ∈ readMany P rws (Sys.run P false ⟨⟨d0, none⟩, as0⟩ sched).sh.disk, r = .ok v := by
+  have h0 : Inv P G O ⟨⟨d0, none⟩, as0⟩ v0 :=
+    ⟨hv0, hops, fun j _ => hpc j, fun _ => hd0, fun i hi => by simp at hi⟩
+  obtain ⟨b', ext, h', hb', hsub, ho'⟩ :=
+    inv_run hg (fun j => ((as0 j).off, (as0 j).rcd)) v0 sched _ v0 [] h0 (fun j => ⟨rfl, rfl⟩) (by simp [applyAll])
+  obtain ⟨v, hgv, hv, hr⟩ := inv_view hg h'
+  refine ⟨ext, v, hsub, hgv, ?_, hr⟩
+  simp only [List.nil_append] at hb'
+  rcases hv with e | ⟨i, hl, e⟩
+  · exact Or.inl (e.trans hb')
+  · exact Or.inr ⟨i, hl, by rw [e, hb', (ho' i).1, (ho' i).2]⟩
+
+/-- the lock of a dead holder does expire (`LockFileRegionDuration`; modelled as the event `expire`) -/
+theorem dead_holder_expires (P : Params) (late : Bool) (s : Sys) (i : Nat) (hl : s.sh.lock = some i)
+    (hd : (s.as i).dead = true) : (s.ev P late .expire).sh.lock = none := by
+  simp [Sys.ev, hl, hd]
+
+/-- **A later writer is not blocked.** After any such history, once the lock is free (released, or expired after
+its holder's death), a live writer entering `updateFileBlockRegion` and running alone finishes within 12 steps
+with success; the block is then exactly the version `v` every reader was handed before, with this writer's
+update; no backup is left and the lock is free again. -/
+theorem C22_later_writer_completes (P : Params) (G : Block → Prop) (O : Nat → List Nat → Prop) (hg : GoodSet P G O)
+    (v0 : Block) (hv0 : G v0) (d0 : Disk) (hd0 : Stable P v0 d0) (as0 : Nat → Actor)
+    (hpc : ∀ j, outside (as0 j).pc = true ∨ (as0 j).dead = true) (hops : ∀ j, O (as0 j).off (as0 j).rcd)
+    (sched : List Ev) (k : Nat)
+    (hfree : (Sys.run P false ⟨⟨d0, none⟩, as0⟩ sched).sh.lock = none)
+    (hk : ((Sys.run P false ⟨⟨d0, none⟩, as0⟩ sched).as k).pc = .lockPre)
+    (hlive : ((Sys.run P false ⟨⟨d0, none⟩, as0⟩ sched).as k).dead = false) :
+    ∃ v, G v ∧ (∀ rws, ∀ r ∈ readMany P rws (Sys.run P false ⟨⟨d0, none⟩, as0⟩ sched).sh.disk, r = .ok v) ∧
+      ((Sys.run P false (Sys.run P false ⟨⟨d0, none⟩, as0⟩ sched) (List.replicate 12 (.step k))).as k).pc = .done ∧
+      ((Sys.run P false (Sys.run P false ⟨⟨d0, none⟩, as0⟩ sched) (List.replicate 12 (.step k))).as k).res = some .ok ∧
+      (Sys.run P false (Sys.run P false ⟨⟨d0, none⟩, as0⟩ sched) (List.replicate 12 (.step k))).sh =
+        ⟨⟨newImage P v (as0 k).off (as0 k).rcd, none⟩, none⟩ := by
+  have h0 : Inv P G O ⟨⟨d0, none⟩, as0⟩ v0 :=
+    ⟨hv0, hops, fun j _ => hpc j, fun _ => hd0, fun i hi => by simp at hi⟩
+  obtain ⟨b', _, h', _, _, ho'⟩ :=
+    inv_run hg (fun j => ((as0 j).off, (as0 j).rcd)) v0 sched _ v0 [] h0 (fun j => ⟨rfl, rfl⟩) (by simp [applyAll])
+  have hs := h'.free hfree
+  have hl := hg.len b' h'.good
+  have hv := hg.val b' h'.good
+  refine ⟨b', h'.good, fun rws => readMany_serves P b' b' hl hv hl hv rws _ (stable_serves hs), ?_⟩
+  obtain ⟨r1, r2⟩ := run_solo P k 12 (Sys.run P false ⟨⟨d0, none⟩, as0⟩ sched) hlive
+  have hsh : (Sys.run P false ⟨⟨d0, none⟩, as0⟩ sched).sh =
+      ⟨(Sys.run P false ⟨⟨d0, none⟩, as0⟩ sched).sh.disk, none⟩ := by
+    cases hx : (Sys.run P false ⟨⟨d0, none⟩, as0⟩ sched).sh with
+    | mk d l => rw [hx] at hfree; simp at hfree; simp [hfree]
+  rw [hsh] at r1 r2
+  obtain ⟨c1, c2, c3⟩ := solo_completes hg h'.good k _ _ (h'.ops k) hk hs
+  rw [r2, r1, c3, (ho' k).1, (ho' k).2]
+  exact ⟨c1, c2, rfl⟩
+
+/-- the same as a statement about a variant of the writer (`late`: backup deleted after the unlock) and an entry
+point (`entry = lockPre`: `updateFileBlockRegion`; `entry = aRead`: the registry call with its unlocked
+`findOneFileRegion` block check in front), all writers alive at the start -/
+def Statement_C22_writers (late : Bool) (entry : WPc) : Prop :=
+  ∀ (P : Params) (G : Block → Prop) (O : Nat → List Nat → Prop), GoodSet P G O →
+    ∀ (v0 : Block), G v0 → ∀ (as0 : Nat → Actor),
+      (∀ j, (as0 j).pc = entry ∧ (as0 j).dead = false ∧ (as0 j).op = .raw (as0 j).off (as0 j).rcd ∧
+        O (as0 j).off (as0 j).rcd) →
+      ∀ (sched : List Ev), ∃ v, G v ∧
+        ∀ rws, ∀ r ∈ readMany P rws (Sys.run P late ⟨⟨⟨v0, none⟩, none⟩, as0⟩ sched).sh.disk, r = .ok v
+
+theorem C22_writers_statement_holds : Statement_C22_writers false .lockPre := by
+  intro P G O hg v0 hv0 as0 h0 sched
+  obtain ⟨_, v, _, hgv, _, hr⟩ := C22_writers_old_or_new P G O hg v0 hv0 ⟨v0, none⟩ (Or.inl rfl) as0
+    (fun j => Or.inl (by rw [(h0 j).1]; rfl)) (fun j => (h0 j).2.2.2) sched
+  exact ⟨v, hgv, hr⟩
+
+/-! #### the toy format satisfies the hypotheses -/
+
+def toyG (b : Block) : Prop := b = toyOld ∨ b = toyNew
+def toyO (off : Nat) (rec : List Nat) : Prop := off = 0 ∧ (rec = [1] ∨ rec = [2])
+
+theorem toy_detects' : Detects toy toyNew toyOld := by
+  intro t hm
+  obtain ⟨hl, hb⟩ := hm
+  match t, hl with
+  | [a, b, c, d, e], _ =>
+    have h0 := hb 0; have h1 := hb 1; have h2 := hb 2; have h3 := hb 3; have h4 := hb 4
+    simp [toyOld, toyNew] at h0 h1 h2 h3 h4
+    rcases h2 with rfl | rfl <;> rcases h3 with rfl | rfl <;> rcases h4 with rfl | rfl <;>
+    rcases h0 with rfl | rfl <;> rcases h1 with rfl | rfl <;> decide
+
+theorem detects_self (P : Params) (b : Block) : Detects P b b := by
+  intro t hm
+  left
+  apply List.ext_getElem? 
+  intro i
+  rcases hm.2 i with e | e <;> exact e
+
+theorem toy_good : GoodSet toy toyG toyO := by
+  refine ⟨?_, ?_, ?_, ?_⟩
+  · intro b hb; rcases hb with rfl | rfl <;> rfl
+  · intro b hb; rcases hb with rfl | rfl <;> decide
+  · intro b off rec hb ho
+    obtain ⟨rfl, hr⟩ := ho
+    rcases hb with rfl | rfl <;> rcases hr with rfl | rfl
+    · exact Or.inl (by decide)
+    · exact Or.inr (by decide)
+    · exact Or.inl (by decide)
+    · exact Or.inr (by decide)
+  · intro b off rec hb ho
+    obtain ⟨rfl, hr⟩ := ho
+    rcases hb with rfl | rfl <;> rcases hr with rfl | rfl
+    · have : newImage toy toyOld 0 [1] = toyOld := by decide
+      rw [this]; exact detects_self _ _
+    · have : newImage toy toyOld 0 [2] = toyNew := by decide
+      rw [this]; exact toy_detects
+    · have : newImage toy toyNew 0 [1] = toyOld := by decide
+      rw [this]; exact toy_detects'
+    · have : newImage toy toyNew 0 [2] = toyNew := by decide
+      rw [this]; exact detects_self _ _
+
+/-- two toy writers: number 0 writes record `[2]`, every other one record `[1]`; block writes split after 1 byte -/
+def toyActors (entry : WPc) : Nat → Actor := fun j =>
+  if j = 0 then { op := .raw 0 [2], off := 0, rcd := [2], cut := 1, pc := entry }
+  else { op := .raw 0 [1], off := 0, rcd := [1], cut := 1, pc := entry }
+
+theorem toyActors_ok (entry : WPc) (j : Nat) :
+    (toyActors entry j).pc = entry ∧ (toyActors entry j).dead = false ∧
+    (toyActors entry j).op = .raw (toyActors entry j).off (toyActors entry j).rcd ∧
+    toyO (toyActors entry j).off (toyActors entry j).rcd := by
+  unfold toyActors
+  by_cases hj : j = 0 <;> simp [hj, toyO]
+
+/-- non-vacuity of `C22_writers_old_or_new`: the hypotheses hold for the toy writers, and the run is not trivial
+(writer 0 completes and is acknowledged, writer 1 dies between the two pieces of its block write, its lock
+expires: every reader gets writer 0's block, restored from writer 1's backup) -/
+example :
+    let sched := List.replicate 11 (Ev.step 0) ++ List.replicate 7 (Ev.step 1) ++ [Ev.kill 1, Ev.expire]
+    let s := Sys.run toy false ⟨⟨⟨toyOld, none⟩, none⟩, toyActors .lockPre⟩ sched
+    s.sh = ⟨⟨[1, 3, 0, 0, 0], some toyNew⟩, none⟩ ∧
+    ackLog toy false ⟨⟨⟨toyOld, none⟩, none⟩, toyActors .lockPre⟩ sched = [0] ∧
+    readMany toy [true, false] s.sh.disk = [.ok toyNew, .ok toyNew] := by
+  decide +kernel
+
+/-- **With the backup deleted after the unlock the statement fails.** Writer 0 writes, unlocks and is parked
+before its `deleteCow`; writer 1 takes the lock, makes its backup, writes the first piece of its block and dies;
+writer 0's late `deleteCow` removes writer 1's backup: the reader finds a torn block and nothing to restore it
+from, and is handed `[1, 3, 0, 0, 0]` — neither version. -/
+theorem C22_late_delete_counterexample : ¬ Statement_C22_writers true .lockPre := by
+  intro h
+  obtain ⟨v, hgv, hr⟩ := h toy toyG toyO toy_good toyOld (Or.inl rfl) (toyActors .lockPre) (toyActors_ok _)
+    (List.replicate 10 (Ev.step 0) ++ List.replicate 7 (Ev.step 1) ++ [Ev.step 0, Ev.kill 1, Ev.expire])
+  have h1 := hr [true] (.ok [1, 3, 0, 0, 0]) (by decide +kernel)
+  injection h1 with h1
+  subst h1
+  rcases hgv with e | e <;> exact absurd e (by decide)
+
+/-- **With the registry's unlocked block check in front (the code as it is) the statement fails too** (finding
+C22-F2). Writer 0 has made its backup and is about to write; writer 1's `findOneFileRegion` reads the still valid
+block and "cleans up" the backup (`readAndRestoreBlock`: valid block → `deleteCow`); writer 0 writes the first
+piece and dies: torn block, no backup, the reader is handed `[2, 2, 0, 0, 0]`. -/
+theorem C22_unlocked_check_counterexample : ¬ Statement_C22_writers false .aRead := by
+  intro h
+  obtain ⟨v, hgv, hr⟩ := h toy toyG toyO toy_good toyOld (Or.inl rfl) (toyActors .aRead) (toyActors_ok _)
+    (List.replicate 8 (Ev.step 0) ++ [Ev.step 1, Ev.step 1, Ev.step 0, Ev.kill 0, Ev.expire])
+  have h1 := hr [true] (.ok [2, 2, 0, 0, 0]) (by decide +kernel)
+  injection h1 with h1
+  subst h1
+  rcases hgv with e | e <;> exact absurd e (by decide)
 
 end Sop.C22
